@@ -1193,6 +1193,29 @@ def rule_range_bound_closed(rep: Report, idx: SourceIndex, pm: Py2CppModel, tm: 
 			r.violate('statement-form', f.where, f'proc_for_range parenthesises the bound for some operator classes only; not covered: {missing}', '')
 		else:
 			r.ok('statement-form', f.where, message=f'bound wrapped for {loose}')
+		# ... and the node whose class decides is the STOP argument: range(n) -> argument 0, range(b, n) and range(b, n, s) -> argument 1 (the language's
+		# reading of the arities). The tested expression is evaluated on representatives for one, two and three arguments.
+		import copy
+		from vlib import dsneval
+		tests = [n.args[0] for n in ast.walk(f.node) if isinstance(n, ast.Call) and isinstance(n.func, ast.Name) and n.func.id == 'isinstance' and len(n.args) == 2]
+		class _StripValue(ast.NodeTransformer):
+			def visit_Attribute(self, n: ast.Attribute):
+				self.generic_visit(n)
+				return n.value if n.attr == 'value' else n
+		for t_ in tests[:1]:
+			fcopy = _StripValue().visit(copy.deepcopy(f.node))
+			tcopy = _StripValue().visit(copy.deepcopy(t_))
+			arg_exprs = {unparse(x) for x in ast.walk(fcopy) if isinstance(x, ast.Attribute) and x.attr == 'arguments'}
+			got = []
+			for n_args in (1, 2, 3):
+				reps = [f'argument {i}' for i in range(n_args)]
+				env = {a: reps for a in arg_exprs}
+				got.append(dsneval.evaluate(fcopy, tcopy, env))
+			want = ['argument 0', 'argument 1', 'argument 1']
+			if any(g is dsneval.UNKNOWN or g is dsneval.RAISES for g in got):
+				r.skip('statement-form:stop-argument-decides', (PY2CPP, t_.lineno), f'the node tested by `isinstance({unparse(t_)[:40]}, ...)` could not be evaluated for 1, 2 and 3 range arguments')
+			else:
+				r.check(got == want, 'statement-form:stop-argument-decides', (PY2CPP, t_.lineno), f'proc_for_range decides the parentheses of the bound by the class of {got} for range() with 1, 2 and 3 arguments; the bound pasted after `<` is {want}: `for i in range(0, a & b, 2)` is emitted `i < a & b`, which C++ reads `(i < a) & b` — another number of iterations', unparse(t_)[:100])
 	name = 'comp/comp_for_range'
 	if name not in tm.asts:
 		r.skip('comprehension-form', None, f'{name}.j2 vanished')
